@@ -45,10 +45,22 @@ type Scen struct {
 	Crit      string    `json:"crit"`    // none processed unprocessed
 	CritInt   bool      `json:"critInt"` // COSE integer-keyed critical attribute
 	CapOrder  int       `json:"capOrder"` // order in which the plugin declares its capabilities
+	// Warm: an earlier verification on the SAME verifier with another envelope (other expiry /
+	// certificate times / attributes); it is not judged and must not influence the judged one
+	Warm *Warm `json:"warm,omitempty"`
+}
+
+// Warm describes the envelope of the warm-up verification.
+type Warm struct {
+	Expiry   string `json:"expiry"`
+	CertTime string `json:"certTime"`
+	Plugin   bool   `json:"plugin"`
+	Crit     bool   `json:"crit"`
+	Format   string `json:"format"`
 }
 
 func (s *Scen) fp() uint64 {
-	return stats.Fingerprint(s.Level.Key(), s.Level.String(), s.Scheme, s.Format, s.Trust, s.Identity, s.Expiry, s.CertTime, s.Rev, s.Plugin, s.MinVer, s.TIVerdict, s.RVVerdict, s.PluginErr, s.Crit, s.CritInt, s.CapOrder)
+	return stats.Fingerprint(s.Level.Key(), s.Level.String(), s.Scheme, s.Format, s.Trust, s.Identity, s.Expiry, s.CertTime, s.Rev, s.Plugin, s.MinVer, s.TIVerdict, s.RVVerdict, s.PluginErr, s.Crit, s.CritInt, s.CapOrder, fmt.Sprintf("%+v", s.Warm))
 }
 
 const pluginName = "verif-plugin"
@@ -312,6 +324,25 @@ func realise(s *Scen) (*run, error) {
 	if err != nil {
 		return nil, fmt.Errorf("harness: verifier construction failed: %v", err)
 	}
+	if s.Warm != nil {
+		wch := getChain(s.Warm.CertTime)
+		ws := envb.Spec{Format: s.Warm.Format, Payload: spec.Payload, ContentType: envb.PayloadType, Scheme: scheme, SigningTime: now.Add(-2 * time.Hour), Chain: wch.X509(), Key: wch.Leaf().Key}
+		switch s.Warm.Expiry {
+		case "future":
+			ws.Expiry = now.Add(6 * time.Hour)
+		case "past":
+			ws.Expiry = now.Add(-30 * time.Minute)
+		}
+		if s.Warm.Plugin {
+			ws.Ext = append(ws.Ext, envb.Attr{Key: envb.AttrPlugin, Critical: true, Value: pluginName})
+		}
+		if s.Warm.Crit {
+			ws.Ext = append(ws.Ext, envb.Attr{Key: critKey, Critical: true, Value: "w"})
+		}
+		v.Verify(context.Background(), desc, envb.Build(ws), notation.VerifierVerifyOptions{ArtifactReference: kit.Reference(desc), SignatureMediaType: s.Warm.Format})
+		// forget what the warm-up did to the collaborators
+		rev.Calls, plug.VerifyCalls, plug.MetaCalls, mgr.Gets, ts.Calls = nil, nil, 0, nil, nil
+	}
 	out, verr := v.Verify(context.Background(), desc, env, notation.VerifierVerifyOptions{ArtifactReference: kit.Reference(desc), SignatureMediaType: s.Format})
 	return &run{accepted: verr == nil, err: verr, out: out, rev: rev, plug: plug, mgr: mgr, ts: ts}, nil
 }
@@ -458,6 +489,9 @@ func classes(s *Scen, v verdict) []string {
 	if s.CritInt && s.Crit != "none" {
 		cl = append(cl, "crit-int-key")
 	}
+	if s.Warm != nil {
+		cl = append(cl, "reused-verifier")
+	}
 	return cl
 }
 
@@ -531,6 +565,10 @@ func drawScen(rt *rapid.T) *Scen {
 	}
 	if s.Crit != "none" && s.Format == envb.MTCOSE {
 		s.CritInt = rapid.IntRange(0, 2).Draw(rt, "critIntKey") == 0
+	}
+	if rapid.IntRange(0, 3).Draw(rt, "warm") == 0 {
+		s.Warm = &Warm{Expiry: rp.Pick(rt, "wExpiry", "none", "future", "past"), CertTime: rp.Pick(rt, "wCertTime", "valid", "leafexpired", "cafuture"),
+			Plugin: rapid.Bool().Draw(rt, "wPlugin"), Crit: rapid.IntRange(0, 3).Draw(rt, "wCrit") == 0, Format: rp.Pick(rt, "wFormat", envb.MTJWS, envb.MTCOSE)}
 	}
 	switch s.Plugin {
 	case "none":
